@@ -8,6 +8,7 @@
  * Schedule points:
  *   SCH_INV   immediately before an operation is invoked
  *   SCH_LOCK  inside the interposed pthread_mutex_lock, before acquisition (ownership modelled here)
+ *   SCH_UNLOCK (optional, with the allocation points) right after the last lock was released inside an operation
  * Unlock re-enables waiters but is not a choice point.
  */
 #define _GNU_SOURCE
@@ -414,11 +415,27 @@ void sch_alloc_point(void)
     if (!g_alloc_on || !g_active || t_tid < 0)
         return;
     int me = t_tid;
-    if (g_status[me] != ST_RUNNING || g_curop[me] < 0 || holds_any(me) || holds_exclusive_rw(me))
+    if (g_status[me] != ST_RUNNING || g_curop[me] < 0)
         return;
-    if (t_rwheld > 0 && !g_active)
+    /* mode 2: also inside critical sections - the other threads block at their lock points (not enabled),
+     * so only code that (wrongly) does not take the lock, e.g. a lock-free observer, runs against the
+     * half-applied operation */
+    if (g_alloc_on < 2 && (holds_any(me) || holds_exclusive_rw(me)))
         return;
     point(SCH_ALLOC, NULL);
+}
+
+/* After-unlock points (same switch as the allocation points): a schedule point right after a worker released
+ * its last lock inside an operation.  Code that keeps working on shared state after the unlock (copies a
+ * value through a pointer obtained under the lock, updates a counter) gets interleaved there. */
+static void unlock_point(void)
+{
+    if (!g_alloc_on || !g_active || t_tid < 0)
+        return;
+    int me = t_tid;
+    if (g_status[me] != ST_RUNNING || g_curop[me] < 0 || holds_any(me) || holds_exclusive_rw(me) || t_rwheld > 0)
+        return;
+    point(SCH_UNLOCK, NULL);
 }
 
 /* ---- reader/writer locks: not modelled as schedule points (a thread never parks while it holds one, so
@@ -508,7 +525,9 @@ int pthread_rwlock_unlock(pthread_rwlock_t* l)
         rw_release(l, t_tid);
     if (t_rwheld > 0)
         t_rwheld--;
-    return real_rwunlock(l);
+    int r = real_rwunlock(l);
+    unlock_point();
+    return r;
 }
 
 /* ---- interposed lock operations ------------------------------------------------------------------ */
@@ -551,5 +570,7 @@ int pthread_mutex_unlock(pthread_mutex_t* m)
     }
     if (g_active && t_tid >= 0)
         release(m);
-    return real_unlock(m);
+    int r = real_unlock(m);
+    unlock_point();
+    return r;
 }
